@@ -1,6 +1,6 @@
 """C09 — upload stream, chunking and transport never change what gets signed."""
 TIE = "corr:merkle+pechecksum+transport"
-TIE_THEOREM = ("Relic.Props.C09.merkle_split_independent / merkle_finish / checksum_even_splits_partial / failover_same_body / "
+TIE_THEOREM = ("Relic.Props.C09.merkle_split_independent / merkle_finish / checksum_even_splits / failover_same_body / "
                "encoding_choice (models Relic.Model.{Merkle,PEChecksum,Transport} vs signers/apk/merkle.go, "
                "lib/authenticode/checksum.go, cmdline/remotecmd/client.go, lib/compresshttp)")
 RULE = ("merkle: real merkleHasher (hook) at the real 1 MiB block with a recording hash registered as crypto.MD4: every ordered pair "
@@ -8,7 +8,10 @@ RULE = ("merkle: real merkleHasher (hook) at the real 1 MiB block with a recordi
         "ending in the real Finish over a generated zip directory; block lengths vs the lengths-only Lean model, block digests vs a "
         "one-write-per-section run and vs an independent chunk-then-hash specification. cksum: real peChecksum fed every single cut "
         "(even and odd) of buffers of 0..101 bytes for peStart in {-1,0,1,2,5} plus seeded multi-cut buffers to 1.5 KiB (all-0xff "
-        "included) vs the Lean model; FixPEChecksum on files whose checksum field sits at / near a 32 KiB read boundary. transport: "
+        "included) vs the Lean model; FixPEChecksum on files whose checksum field sits at / near a 32 KiB read boundary, and the real "
+        "FixPEChecksum on ~40 generated PE-like files shipped in full (e_lfanew+88 on / next to the 32 and 64 KiB io.Copy boundaries, odd / zero "
+        "e_lfanew, field at or past EOF, odd lengths, rejects): the 4 stored bytes vs the declarative Spec.peChecksum evaluated by the Lean "
+        "driver. transport: "
         "real doRequest (hook) against httptest servers behind the real compresshttp.Middleware with a scripting RoundTripper: first "
         "k attempts failing (refused / 500 / 503) for k=0..4, a 406 at every position, seeded scripts over 16 outcome kinds x 6 "
         "Accept-Encoding strings x retries {0,1,2,3,5} x 1..3 servers x bodies 0..300 KB, really closed listeners; the server records "
@@ -20,8 +23,10 @@ RULE = ("merkle: real merkleHasher (hook) at the real 1 MiB block with a recordi
         "code with at least one write, cut, attempt or fragmented read (not an empty script).")
 ASSUMPTIONS = ["block size B > 0 (the Go constant is 2^20); with B = 0 the Go loop would not terminate",
                "merkleHasher's hash is any hash.Hash: only the byte strings handed to it are compared (hash = parameter)",
-               "peChecksum: the proved split-independence excludes a write boundary on the checksum field (p) or in its middle (p+2); "
-               "the unrestricted statement is refuted (checksum_even_splits_full_false) and is a finding",
+               "peChecksum is modelled after fix F20 (absolute position counter); the pre-fix code is kept as writeOrig with the "
+               "refutation checksum_even_splits_orig_false",
+               "PE checksum = specification only for an even checksum-field offset (every loadable image); for an odd or absent offset "
+               "the code excludes nothing (Relic.Props.C05.pe_checksum_odd_pos)",
                "transport model: one script entry per call of http.Client.Do; httperror.Temporary is modelled for HTTP statuses "
                "(500,502,503,504,507) and as a boolean for transport errors; GetReader/Close are atomic (no goroutine interleaving)",
                "gzip/snappy codecs: only dec(comp b) = b is assumed (library code, exercised by the tie, not proved)",
@@ -30,10 +35,10 @@ ASSUMPTIONS = ["block size B > 0 (the Go constant is 2^20); with B = 0 the Go lo
 TRUSTED = ["models Relic.Model.Merkle / PEChecksum / Transport are hand-written; tied to the Go code by differential execution on every run",
            "recording hash.Hash (SHA-256 inside) registered under crypto.MD4 by the harness",
            "fragmenting-reader oracles compare the implementation with itself (no model): they search, they do not prove"]
-UNPROVED = ["checksum_even_splits_full (refuted for the code as written: checksum_even_splits_full_false; see known finding F20)",
-            "pe_reader_split_independent (DigestPE/cabfile/PowerShell/MSI-tar/XAP-tar/AppX readers under short reads: no reader model; implementation oracle only)",
+UNPROVED = ["pe_reader_split_independent (DigestPE/cabfile/PowerShell/MSI-tar/XAP-tar/AppX readers under short reads: no reader model; implementation oracle only)",
             "stream_digest_eq_file_digest (composition with C01/C17; not stated here)"]
 IMPL_PARALLEL = 8
+EXTRA_MODULES = ["Relic.Props.C05_Checksum"]
 
 
 def _f(op):
@@ -47,6 +52,8 @@ def nontrivial(op, mres, tag):
         return any(x != "-" for x in f[4:])
     if k == "cksum":
         return f[3] != "-"
+    if k == "fixpehex":
+        return mres.startswith("ok")
     if k in ("xport", "xdown"):
         return "attempts=0" not in tag
     return True
@@ -100,7 +107,7 @@ def predicate(op, il, mres, tag):
         one = tag.split("oneshot=")[1].split()[0] if "oneshot=" in tag else ""
         if even:
             if not il.startswith("ok") or il.split()[1] != one:
-                return ("Relic.Props.C09.checksum_even_splits_full", "ok " + one,
+                return ("Relic.Props.C09.checksum_even_splits", "ok " + one,
                         "all writes but the last are even-sized, yet the sum differs from the one-shot sum")
         else:
             # an odd write before the end must be an explicit error, never a silently different sum
@@ -108,7 +115,14 @@ def predicate(op, il, mres, tag):
                 return ("Relic.Props.C09.checksum_odd_then_write", "err odd-write or ok " + one, "odd write before the end gave a different sum without error")
     elif k == "fixpe":
         if il != "ok same":
-            return ("Relic.Props.C09.checksum_even_splits_full", "ok same", "FixPEChecksum wrote a checksum different from the one-shot checksum of the same file")
+            return ("Relic.Props.C09.checksum_even_splits", "ok same", "FixPEChecksum wrote a checksum different from the one-shot checksum of the same file")
+    elif k == "fixpehex":
+        # the stored bytes must be the declarative checksum (even field offset) / the plain sum (odd or no field)
+        if "spec=" in tag and il.startswith("ok"):
+            spec = tag.split("spec=")[1].split()[0]
+            if il.split()[2] != spec:
+                return ("Relic.Props.C05.fix_pe_checksum_eq_spec", "ok %s %s" % (il.split()[1], spec),
+                        "FixPEChecksum stored a value different from Spec.peChecksum of the file")
     elif k in ("xport", "xdown"):
         if il.startswith("ok"):
             parts = il.split()
@@ -138,9 +152,6 @@ def matches_known(kn, op, il, mres, tag):
     ident = kn.get("identity", {})
     f = _f(op)
     site = ident.get("site", "")
-    if site == "authenticode.peChecksum.Write" and f[1] in ("cksum", "fixpe"):
-        # identity = the model's own trigger predicate: an (even) write boundary at the checksum field or in its middle
-        return "onfield=1" in tag
     if site == "signjar.updateManifest" and f[1] == "jarrepro":
         return int(f[2]) >= 2
     return False
